@@ -21,8 +21,8 @@ import (
 	pb "github.com/wealdtech/eth2-signer-api/pb/v1"
 	"google.golang.org/grpc"
 	"google.golang.org/grpc/codes"
-	"google.golang.org/grpc/status"
 	"google.golang.org/grpc/encoding"
+	"google.golang.org/grpc/status"
 	"google.golang.org/protobuf/proto"
 	"google.golang.org/protobuf/types/known/emptypb"
 )
@@ -962,7 +962,10 @@ func c20RegressionSeeds() [][2]string {
 	}
 	nasty := []byte{0xf2, 0xcd, 0xa0, 0xcc, 0xa0} // truncated 4-byte lead followed by two combining marks of decreasing class
 	return [][2]string{
-		{"/v1.AccountManager/Lock", func() string { raw, _ := proto.Marshal(&pb.LockAccountRequest{Account: "Wallet1/acct0"}); return hex.EncodeToString(raw) }()},
+		{"/v1.AccountManager/Lock", func() string {
+			raw, _ := proto.Marshal(&pb.LockAccountRequest{Account: "Wallet1/acct0"})
+			return hex.EncodeToString(raw)
+		}()},
 		{"/v1.AccountManager/Unlock", unlock("Wallet1/acct0", nasty)},
 		{"/v1.WalletManager/Unlock", wunlock("Wallet1", nasty)},
 		{"/v1.AccountManager/Unlock", unlock("Wallet1/acct0", []byte("pass"))},
